@@ -1,6 +1,7 @@
 import Driver.Loop
 import IrohModel.Common.Hex
 import IrohModel.C31.Model
+import IrohModel.C31.CustomAddrCodec
 open IrohModel IrohModel.C31
 
 /-- hex of UTF-8 bytes → string (`-` = empty). -/
@@ -63,7 +64,11 @@ def renderInfo : Except ParseErr Info → String
     let ud := match i.userData with | some u => hexOfStr u | none => "~"
     s!"ok(id={hexOfBytes i.id};a={listOr (i.addrs.map addrTok)};ud={ud})"
 
-def handleLine (payload : String) : String :=
+/-- The C02 custom-address codec must agree with the real `CustomAddr::from_str` verdicts. -/
+def codecMismatch (d : List Verdict) : Option String :=
+  (d.find? fun v => c02ParseCustom v.s != v.custom).map fun v => s!"custom-codec-mismatch:{hexOfStr v.s}"
+
+def handleCase (payload : String) : String :=
   match tokens payload with
   | ["rt", _sk, pk, id, a, ud, d] =>
     match field? pk "pk" >>= bytesOfHex, field? id "id" >>= bytesOfHex, field? a "a", field? ud "ud",
@@ -95,5 +100,11 @@ def handleLine (payload : String) : String :=
       | none => "bad-input"
     | _, _, _, _ => "bad-input"
   | _ => "bad-input"
+
+def handleLine (payload : String) : String :=
+  let dictTok := (tokens payload).find? (·.startsWith "d=")
+  match dictTok >>= (field? · "d") >>= parseDict >>= codecMismatch with
+  | some m => m
+  | none => handleCase payload
 
 def main : IO Unit := Driver.run handleLine
